@@ -338,6 +338,8 @@ def _len(ex, st, args, kwargs, node):
         # exactly one element iff S is the singleton of its (chosen) element -- links `assert len(S) == 1` to `(x,) = S`
         only = z3.Function("only_" + T._mangle(v.ty.elem), S.sort(), v.ty.elem.sort())
         assume_theorem(st, (n == 1) == (S == z3.SetAdd(z3.EmptySet(v.ty.elem.sort()), only(S))))
+        # only() is a choice function: it picks a member of every non-empty set (so `S == {x}` gives only(S) == x, hence len(S) == 1)
+        assume_theorem(st, z3.Or(S == z3.K(v.ty.elem.sort(), z3.BoolVal(False)), z3.Select(S, only(S))))
         src = v.meta[1] if isinstance(v.meta, tuple) and len(v.meta) == 2 and v.meta[0] == "from_seq" else None
         if src is not None:
             i, j = z3.Int(fresh_name("ci")), z3.Int(fresh_name("cj"))
